@@ -122,6 +122,20 @@ CHECKS = {
                 "unambiguous part is asserted (the code's documented closest-match rule). Which reads are processed is C05.",
         "design": "3 C13",
     },
+    "C05": {
+        "text": "Bounded symbolic verification of region handling: the real AlignmentCollector.process grouping loop, forward_alignments, "
+                "split_coverage_regions, BAMAlignmentStorage (re-fetch through the real BAMOnlineMerger on a fake BAM obeying the pysam fetch "
+                "contract) and InMemoryAlignmentStorage (index + retrieval) run on n<=3 (quick) / n<=4 (thorough) position-sorted alignments with "
+                "symbolic start and length, with the class constants scaled (bin 4, max region 8, min reads 2) so that single-bin pile-ups, "
+                "valleys in the last bin and multi-region splits are all reachable; z3 proves that every alignment is delivered to >=1 processed "
+                "region in both memory modes, only to regions it overlaps, never twice to one region, that both modes deliver identical sets, "
+                "and that the alignment statistics equal the per-category counts. split_coverage_regions is additionally proved to tile the "
+                "region for every coverage profile of <=4 (quick) / <=6 (thorough) bins with symbolic coverage values.",
+        "note": "Trusted: z3, symx proxies, the fake BAM's fetch contract. The constants are scaled (the code is parametric in them); real-size "
+                "constants, pysam itself and the per-read MAPQ/flag filters are outside the claim. De-duplication of a read seen in two regions is "
+                "covered by C08 (find_duplicates).",
+        "design": "3 C05",
+    },
 }
 
 NOT_BUILT = "check not built yet (build in progress, see DESIGN.md section 5); no claim is made"
